@@ -40,6 +40,7 @@ type Parser struct {
 	Extra  func(r *Rng) [][]byte      // extra arguments (type codes), nil if none
 	Run    func(b []byte, extra [][]byte) Parsed
 	Gen    func(r *Rng) []byte         // a well-formed encoding (mostly valid)
+	InexactGen bool // Gen does not produce exactly one structure for the Extra argument
 	MinSizeGuard int                   // whole-input minimum-size guard (0 = none); see DESIGN D6
 }
 
@@ -162,7 +163,7 @@ func init() {
 				}
 				return genRouterIdent(r).Encode()
 			}},
-		{Name: "ReadSignature", Entry: E_ReadSignature, HasRem: true, Extra: genSigTypeArg,
+		{Name: "ReadSignature", Entry: E_ReadSignature, HasRem: true, Extra: genSigTypeArg, InexactGen: true,
 			Run: func(b []byte, ex [][]byte) Parsed {
 				t := int(int64(beU64(ex[0])))
 				s, rem, err := signature.ReadSignature(b, t)
@@ -172,7 +173,7 @@ func init() {
 				return Parsed{OK: true, Bytes: s.Bytes(), Rem: rem, Val: &s, Obs: OK(s.Bytes(), rem)}
 			},
 			Gen: func(r *Rng) []byte { return r.Bytes([]int{40, 64, 96, 132, 256, 384, 512}[r.Intn(7)]) }},
-		{Name: "ReadOfflineSignature", Entry: E_ReadOfflineSignature, HasRem: true,
+		{Name: "ReadOfflineSignature", Entry: E_ReadOfflineSignature, HasRem: true, InexactGen: true,
 			Extra: func(r *Rng) [][]byte { return [][]byte{u64b(uint64([]int{7, 11, 0, 1, 2, 8, 9, 99}[r.Intn(8)]))} },
 			Run: func(b []byte, ex [][]byte) Parsed {
 				dt := uint16(beU64(ex[0]))
